@@ -50,11 +50,23 @@ theorem formatter_legacy_refuted :
   revert hs
   simp [formatMessage, Variant.legacy, attr, bind, Except.bind]
 
-/-- … and holds exactly for records that have a port whenever they have a host -/
+/-- … it holds for records that have a port whenever they have a host … -/
 theorem formatter_legacy_partial (cfg : FmtCfg) (id : Nat) (r : Rec) (m : Str)
     (h : r.host.isSome = true → r.port.isSome = true) :
     formatMessage Variant.legacy cfg id r m = .ok (specFormat cfg id r m) :=
   formatMessage_spec _ cfg id r m (Or.inr h)
+
+/-- … and for no others: host without port always raised AttributeError -/
+theorem formatter_legacy_converse (cfg : FmtCfg) (id : Nat) (r : Rec) (m : Str)
+    (h : r.host.isSome = true ∧ r.port.isSome = false) :
+    formatMessage Variant.legacy cfg id r m = .error .attributeError := by
+  obtain ⟨hh, hp⟩ := h
+  cases hhost : r.host with
+  | none => simp [hhost] at hh
+  | some hv =>
+    cases hport : r.port with
+    | some pv => simp [hport] at hp
+    | none => simp [formatMessage, Variant.legacy, attr, hhost, hport, bind, Except.bind]
 
 /-- scrapli's own loggers (`get_instance_logger`) always set host and port together -/
 theorem instance_extras_host_iff_port (host : Str) (port : Nat) (uid : Str) :
@@ -68,10 +80,14 @@ theorem instance_extras_host_iff_port (host : Str) (port : Nat) (uid : Str) :
     with the buffering handler and with the plain one, in both formats: what is written is exactly
     the specified line for each entry of the sequence — maximal runs of read records replaced by one
     entry carrying the concatenation of their payloads, everything else one line each, in order,
-    numbered from 1 — and logging reports no error. -/
+    numbered from 1 — and logging reports no error.
+    ASSUMPTION (explicit in the model): the log file's encoding can encode every character
+    (`Variant.fixed.asciiStream = false`: UTF-8 — what enable_basic_logging guarantees once
+    fixes/C20-log-file-utf8.patch is applied, and what a UTF-8 locale gives before it);
+    `handler_ascii_stream_refuted` is the statement without it. -/
 theorem handler_refines_spec (cfg : FmtCfg) (buffered : Bool) (recs : List Rec) (hwf : ∀ r ∈ recs, r.wf) :
     runHandler Variant.fixed cfg buffered recs = (specLines cfg 1 (specEntries buffered recs)).map Ev.line := by
-  have hok : ∀ r ∈ recs, RecOK Variant.fixed r := fun r hr => ⟨hwf r hr, Or.inl rfl, Or.inl rfl⟩
+  have hok : ∀ r ∈ recs, RecOK Variant.fixed r := fun r hr => ⟨hwf r hr, Or.inl rfl, Or.inl rfl, rfl⟩
   unfold runHandler specEntries
   cases buffered
   · simpa [firstMessageId] using foldl_baseEmit_spec Variant.fixed cfg recs {} hok
@@ -137,7 +153,7 @@ theorem coalesced_entry_text (r : Rec) (run rest : List Rec) (hr : isRead r = tr
     read records make logging report an error — the full statement is false … -/
 theorem handler_legacy_refuted_lazy :
     ¬ ∀ (cfg : FmtCfg) (recs : List Rec), (∀ r ∈ recs, r.wf) →
-      runHandler ⟨false, true, true⟩ cfg true recs = (specLines cfg 1 (specEntries true recs)).map Ev.line := by
+      runHandler ⟨false, true, true, false⟩ cfg true recs = (specLines cfg 1 (specEntries true recs)).map Ev.line := by
   intro h
   let a : Arg := ⟨"b'abc'".toList, "b'abc'".toList⟩
   let d : Arg := ⟨"b'def'".toList, "b'def'".toList⟩
@@ -152,7 +168,7 @@ theorem handler_legacy_refuted_lazy :
     written — the full statement is false … -/
 theorem handler_legacy_refuted_flush :
     ¬ ∀ (cfg : FmtCfg) (recs : List Rec), (∀ r ∈ recs, r.wf) →
-      runHandler ⟨true, false, true⟩ cfg true recs = (specLines cfg 1 (specEntries true recs)).map Ev.line := by
+      runHandler ⟨true, false, true, false⟩ cfg true recs = (specLines cfg 1 (specEntries true recs)).map Ev.line := by
   intro h
   have h1 := h {} [{ msg := "start".toList }, { msg := "read: b'tail'".toList }]
     (by intro r hr; simp at hr; rcases hr with rfl | rfl <;> exact ⟨_, rfl⟩)
@@ -161,20 +177,86 @@ theorem handler_legacy_refuted_flush :
   simp [specEntries, coalesce, isRead, readPrefix, specLines, List.isPrefixOf]
   decide
 
-/-- … and the unfixed handler is right exactly on sequences whose read records are eager (no args),
-    whose records have a port whenever they have a host, and that end with a non-read record -/
+/-- … and the unfixed handler is right on sequences whose read records are eager (no args), whose
+    records have a port whenever they have a host, and that end with a non-read record (sufficient
+    condition; the three `_refuted` witnesses show each part is needed) -/
 theorem handler_legacy_partial (cfg : FmtCfg) (pre : List Rec) (p : Rec) (hp : isRead p = false)
     (hwf : ∀ r ∈ pre ++ [p], r.wf)
     (hport : ∀ r ∈ pre ++ [p], r.host.isSome = true → r.port.isSome = true)
     (heager : ∀ r ∈ pre ++ [p], isRead r = true → r.args = []) :
     runHandler Variant.legacy cfg true (pre ++ [p])
       = (specLines cfg 1 (specEntries true (pre ++ [p]))).map Ev.line := by
-  have hok : ∀ r ∈ pre ++ [p], RecOK ⟨false, true, false⟩ r :=
-    fun r hr => ⟨hwf r hr, Or.inr (hport r hr), Or.inr (heager r hr)⟩
-  show runHandler ⟨false, false, false⟩ cfg true (pre ++ [p]) = _
-  rw [runHandler_flush_irrelevant false false cfg pre p hp]
+  have hok : ∀ r ∈ pre ++ [p], RecOK ⟨false, true, false, false⟩ r :=
+    fun r hr => ⟨hwf r hr, Or.inr (hport r hr), Or.inr (heager r hr), rfl⟩
+  show runHandler ⟨false, false, false, false⟩ cfg true (pre ++ [p]) = _
+  rw [runHandler_flush_irrelevant false false false cfg pre p hp]
   unfold runHandler specEntries
-  simpa [runFrom, firstMessageId] using runFrom_spec ⟨false, true, false⟩ cfg rfl (pre ++ [p]) {} rfl hok
+  simpa [runFrom, firstMessageId] using runFrom_spec ⟨false, true, false, false⟩ cfg rfl (pre ++ [p]) {} rfl hok
+
+/-- **the file before close()** (what `tail -f` shows, what is left after a crash): write the
+    sequence as `body ++ run`, `run` the trailing run of read records (`body` empty or ending with a
+    non-read record).  Everything of `body` is in the file, exactly as specified; of `run` nothing yet,
+    it is pending in the buffer (carrier = its first record, payload buffer = UTF-8 of the concatenated
+    payload texts).  So at most the trailing run is missing, never anything earlier. -/
+theorem handler_prefix (cfg : FmtCfg) (body run : List Rec)
+    (hbody : body = [] ∨ ∃ pre p, body = pre ++ [p] ∧ isRead p = false)
+    (hrun : ∀ r ∈ run, isRead r = true) (hwf : ∀ r ∈ body ++ run, r.wf) :
+    let st := (body ++ run).foldl (emit Variant.fixed cfg) {}
+    st.out = (specLines cfg 1 (specEntries true body)).map Ev.line ∧
+    st.buf = run.head? ∧
+    (run ≠ [] → st.msgBuf = encode (run.flatMap payloadText)) := by
+  have := foldl_emit_body_run Variant.fixed cfg rfl body run hbody hrun
+    (fun r hr => ⟨hwf r hr, Or.inl rfl, Or.inl rfl, rfl⟩)
+  simpa [specEntries, firstMessageId] using this
+
+/-- **encoding of the log file** (finding C20-ENC): when the file's encoding is the locale's and
+    cannot encode a character (modelled: ASCII), the full statement is false — a message with a
+    non-ASCII character is not written and logging reports an error -/
+theorem handler_ascii_stream_refuted :
+    ¬ ∀ (cfg : FmtCfg) (buffered : Bool) (recs : List Rec), (∀ r ∈ recs, r.wf) →
+      runHandler ⟨true, true, true, true⟩ cfg buffered recs
+        = (specLines cfg 1 (specEntries buffered recs)).map Ev.line := by
+  intro h
+  have h1 := h {} false [{ msg := "write: 'café'".toList }] (by intro r hr; simp at hr; subst hr; exact ⟨_, rfl⟩)
+  have h2 := congrArg errorCount h1
+  rw [errorCount_map_line] at h2
+  revert h2
+  decide +kernel
+
+/-- … and the header row is lost with it when it was the first message: the file starts at id 2 -/
+example :
+    runHandler ⟨true, true, true, true⟩ { logHeader := true } false
+        [{ msg := "write: 'café'".toList }, { msg := "second".toList }]
+      = [Ev.error .unicodeEncodeError,
+         Ev.line "2     |  |          |                           | second".toList] := by
+  decide +kernel
+
+/-- **attribution**: when all read records of the sequence carry the same target (one connection
+    logging: scrapli gives every connection's loggers one host/port/uid), every non-read message and
+    every payload character is shown under the target of the record it came from -/
+theorem coalesce_attribution (recs : List Rec)
+    (hsame : ∀ a ∈ recs, ∀ b ∈ recs, isRead a = true → isRead b = true → specTarget a = specTarget b) :
+    (specEntries true recs).flatMap entryAtomsT = recs.flatMap recAtomsT := by
+  simpa [specEntries] using coalesce_atomsT recs hsame
+
+/-- … and NOT in general (documented limit of the handler, see design/C20.md): reads of two
+    connections that interleave are coalesced into one line under the first one's target.  The
+    specification (and the real handler) do this; `handler_refines_spec` cannot notice. -/
+theorem coalesce_attribution_mixed_refuted :
+    ¬ ∀ recs : List Rec, (specEntries true recs).flatMap entryAtomsT = recs.flatMap recAtomsT := by
+  intro h
+  have h1 := h [{ msg := "read: a".toList, host := some ['A'], port := some ['1'] },
+                { msg := "read: b".toList, host := some ['B'], port := some ['2'] }]
+  revert h1
+  simp [specEntries, coalesce, isRead, readPrefix, List.isPrefixOf, entryAtomsT, entryAtoms, recAtomsT, recAtoms,
+    payloadText, message, getMessage, specTarget]
+
+/-- **ill-formed records, plain handler**: a record whose `msg % args` raises costs exactly one
+    logging error and nothing else — the number of errors is the number of ill-formed records -/
+theorem unbuffered_error_count (cfg : FmtCfg) (recs : List Rec) :
+    errorCount (runHandler Variant.fixed cfg false recs) = (recs.filter fun r => !r.wfb).length := by
+  unfold runHandler
+  simpa [errorCount] using errorCount_foldl_baseEmit cfg recs {}
 
 /-! ## Channel log -/
 
@@ -298,7 +380,23 @@ theorem consts_as_specified :
     callerLimit = 20 ∧ callerKeep + ellipsis.length = callerLimit ∧ firstMessageId = 1 := by
   decide
 
-/-- `enable_basic_logging(mode=…)`: exactly "write" and "append" (any case) are accepted -/
+/-- `enable_basic_logging(mode=…)`: exactly "write" and "append" (in any ASCII case) are accepted and
+    give file modes "w" and "a" (`.lower()` is checked by the translator to be what the code compares) -/
+theorem basic_logging_modes_iff (m x : Str) :
+    basicLoggingMode m = .ok x ↔
+      (m.map Char.toLower = "write".toList ∧ x = ['w']) ∨ (m.map Char.toLower = "append".toList ∧ x = ['a']) := by
+  unfold basicLoggingMode logModes
+  generalize m.map Char.toLower = k
+  simp only [List.lookup]
+  by_cases h1 : k = ['a', 'p', 'p', 'e', 'n', 'd']
+  · subst h1; simp; constructor <;> intro h <;> simp_all [eq_comm]
+  · by_cases h2 : k = ['w', 'r', 'i', 't', 'e']
+    · subst h2; simp; constructor <;> intro h <;> simp_all [eq_comm]
+    · have e1 : (k == ['a', 'p', 'p', 'e', 'n', 'd']) = false := by simpa using h1
+      have e2 : (k == ['w', 'r', 'i', 't', 'e']) = false := by simpa using h2
+      simp [e1, e2, h1, h2]
+
+/-- instances of the previous theorem -/
 theorem basic_logging_modes :
     (basicLoggingMode "write".toList).toOption = some ['w'] ∧
     (basicLoggingMode "Append".toList).toOption = some ['a'] ∧
